@@ -76,7 +76,7 @@ static void history_pool(ShadowHeap& h, rml::MemoryPool* pool, int id) {
     for (auto& kv : h.live) if (inside(id, kv.first, 1) && rml::pool_identify(kv.first) != pool) vf_fail("pool_identify names the wrong pool");
 }
 static void scenario() {
-    const char* k = vf_param("kind", "default"); ShadowHeap h;
+    const char* k = vf_param("kind", "default"); ShadowHeap h; vf_liveness(1);   // every allocator call must return: an execution that reaches the step horizon is a hang
     if (streq(k, "default")) {
         void* warm = scalable_malloc(16); scalable_free(warm);          // library initialisation outside the window
         vf_window(1); armed = true; history_default(h); armed = false; vf_window(0);
@@ -87,13 +87,18 @@ static void scenario() {
     else if (streq(k, "pool") || streq(k, "fixed")) { bool fixed = streq(k, "fixed");
         rml::MemPoolPolicy pol(raw_alloc, raw_free, 0, fixed, false); rml::MemoryPool* pool = nullptr;
         allow_null = fixed;
-        vf_window(1); armed = !fixed; rml::MemPoolError err = rml::pool_create_v1(1, &pol, &pool);
+        vf_window(1); armed = true; rml::MemPoolError err = rml::pool_create_v1(1, &pol, &pool);   // fixed pool: its single raw request may be refused too
         if (err != rml::POOL_OK) { armed = false; vf_window(0); if (!raw_failed) vf_fail("pool_create_v1 failed (%d) without a refused raw request", (int)err); vf_outcome("create failed"); return; }
         history_pool(h, pool, 1); armed = false; vf_window(0);
-        if (fixed && env[1].calls != 1) vf_fail("fixed pool called the raw allocator %d times", env[1].calls);
+        if (fixed && env[1].calls > 1) vf_fail("fixed pool called the raw allocator %d times (a fixed pool asks once, also when the request was refused)", env[1].calls);
         void* z = rml::pool_malloc(pool, 100); if (!z && !fixed) vf_fail("pool allocation still fails after raw memory became available again"); if (z) h.add(z, 100, 16, "pool_malloc"); h.check_all("recovery");
         if (!rml::pool_reset(pool)) vf_fail("pool_reset failed"); h.live.clear();
         void* y = rml::pool_malloc(pool, 5000); if (y) { if (!inside(1, y, 5000)) vf_fail("block after reset outside raw memory"); }
+        if (!fixed) {   // blocks of 4 MB and more around a reset: the bins of the largest size class must be emptied by reset like all others
+            ShadowHeap h2; for (int round = 0; round < 2; round++) { std::vector<void*> big;
+                for (int i = 0; i < 3; i++) { void* p = rml::pool_malloc(pool, (5u << 20) + i * 4096); if (!p) vf_fail("pool_malloc(5 MB) failed after reset"); if (!inside(1, p, 5u << 20)) vf_fail("5 MB block outside the pool's raw memory"); h2.add(p, 5u << 20, 16, "pool_malloc"); big.push_back(p); }
+                h2.check_all("5 MB blocks"); h2.take(big[1], "pool_free"); rml::pool_free(pool, big[1]); void* q = rml::pool_malloc(pool, 6u << 20); if (!q) vf_fail("pool_malloc(6 MB) failed"); if (!inside(1, q, 6u << 20)) vf_fail("6 MB block outside the pool's raw memory"); h2.add(q, 6u << 20, 16, "pool_malloc"); h2.check_all("after reuse");
+                if (!rml::pool_reset(pool)) vf_fail("pool_reset failed"); h2.live.clear(); } }
         if (!rml::pool_destroy(pool)) vf_fail("pool_destroy failed"); for (auto& r : env[1].regions) if (r.live) vf_fail("pool_destroy kept raw region %p", (void*)r.p);
         vf_outcome("raw=%d failed=%d nulls=%d", raw_calls, raw_failed, nulls); }
     else if (streq(k, "poolorphan")) {   // a thread allocated small objects in the pool and ended; its slabs are orphaned, another thread frees them; then raw memory is refused
